@@ -48,6 +48,45 @@ def _H(m):
     return np.conj(np.swapaxes(m, -1, -2))
 
 
+def _grid(rng, S, kind, lo=-6.0, hi=6.0):
+    """a parameter array of shape S whose entries hit special values at SOME positions (the family a guard like
+    `np.all(x)` / `np.any(x == 0)` / `x % (pi/2)` reacts to), next to ordinary random entries"""
+    S = tuple(S)
+    n = int(np.prod(S)) if S else 1
+    x = rng.uniform(lo, hi, size=n)
+    if kind == 'zeros_some':
+        x[rng.choice(n, size=max(1, n // 3), replace=False)] = 0.0
+    elif kind == 'one_zero':
+        x[int(rng.integers(0, n))] = 0.0
+    elif kind == 'all_zero':
+        x[:] = 0.0
+    elif kind == 'halfpi_some':
+        idx = rng.choice(n, size=max(1, n // 2), replace=False)
+        x[idx] = rng.choice([0.0, math.pi / 2, math.pi, -math.pi / 2, 2 * math.pi, -math.pi], size=len(idx))
+    elif kind == 'repeated':
+        x = rng.choice(rng.uniform(lo, hi, size=2), size=n)
+    elif kind == 'linspace_odd':
+        m = n if n % 2 else n - 1
+        x[:m] = np.linspace(-1.0, 1.0, m) if m > 1 else 0.0      # contains an exact 0
+    elif kind == 'polar':
+        from prysm.coordinates import make_xy_grid, cart_to_polar
+        k = max(3, int(math.ceil(math.sqrt(n))))
+        xx, yy = make_xy_grid(k, diameter=2)
+        _, t = cart_to_polar(xx, yy)
+        x = np.resize(t.ravel(), n).astype(float)                 # azimuth grid: exact 0 on +x, pi on -x
+    elif kind == 'ints':
+        x = rng.integers(-3, 4, size=n).astype(float)
+        x[0] = 0.0
+    elif kind == 'negzero':
+        x[int(rng.integers(0, n))] = -0.0
+    elif kind != 'random':
+        raise KeyError(kind)
+    return np.asarray(x, dtype=float).reshape(S)
+
+
+GRIDS = ['random', 'zeros_some', 'one_zero', 'all_zero', 'halfpi_some', 'repeated', 'linspace_odd', 'polar', 'ints', 'negzero']
+
+
 def _unitary(kind, c):
     """build the element described by c with the real code"""
     P = _P()
@@ -153,6 +192,68 @@ def pred(item, c):
         r2 = list(r2 if isinstance(r2, tuple) else (r2,))
         e = max(_err(x, y) for x, y in zip(r2, r1))
         return e <= PTOL, f'{fn}: second call on the same arguments differs by {e!r}'
+    if item == 'jforms':
+        # the same Jones array / parameter array in another dtype or memory layout must give the same answer
+        rng = np.random.Generator(np.random.PCG64(c['seed']))
+        S = tuple(c['shape'])
+        form, fn = c['form'], c['fn']
+        tol = PTOL
+
+        def relayout(a):
+            nonlocal tol
+            if form == 'fortran':
+                return np.asfortranarray(a)
+            if form == 'strided':
+                big = np.zeros(a.shape[:-1] + (2 * a.shape[-1],), dtype=a.dtype)
+                big[..., ::2] = a
+                return big[..., ::2]
+            if form == 'negstride':
+                return np.ascontiguousarray(a[..., ::-1])[..., ::-1]
+            if form == 'readonly':
+                b = a.copy(); b.setflags(write=False)
+                return b
+            if form == 'transposed_view':
+                return np.ascontiguousarray(np.moveaxis(a, 0, -1)).transpose((a.ndim - 1,) + tuple(range(a.ndim - 1))) if a.ndim > 1 else a
+            if form in ('complex64', 'float32'):
+                tol = 5e-6
+                return a.astype(form) if (form == 'complex64' or not np.iscomplexobj(a)) else a.astype('complex64')
+            if form == 'int64':
+                return a if np.iscomplexobj(a) else np.round(a).astype('int64')
+            if form == 'list':
+                return a.tolist()
+            raise KeyError(form)
+        if fn in ('jones_to_mueller', 'pauli_coefficients', 'broadcast_kron'):
+            J = np.round(rng.uniform(-1, 1, size=S + (2, 2)), 3) + 1j * np.round(rng.uniform(-1, 1, size=S + (2, 2)), 3)
+            if form == 'real':
+                J, Jv = J.real.copy(), J.real.copy()
+            else:
+                Jv = relayout(J)
+            call = (lambda a: P.broadcast_kron(np.conj(a), a)) if fn == 'broadcast_kron' else getattr(P, fn)
+            if form == 'list':
+                return True, 'lists are not an accepted input form (documented: ndarray)'
+            a, b = call(Jv), call(J)
+        else:
+            th = np.round(rng.uniform(-6, 6, size=S), 2)
+            if form == 'int64':
+                th = np.round(th)
+            if form in ('real', 'list', 'complex64'):
+                return True, 'not applicable to a real parameter array'
+            thv = relayout(th)
+            if fn == 'jones_rotation_matrix':
+                a, b = P.jones_rotation_matrix(thv, shape=S), P.jones_rotation_matrix(th.astype(float), shape=S)
+            elif fn == 'linear_retarder':
+                a, b = P.linear_retarder(thv, thv, shape=S), P.linear_retarder(th.astype(float), th.astype(float), shape=S)
+            elif fn == 'linear_polarizer':
+                a, b = P.linear_polarizer(thv, shape=S), P.linear_polarizer(th.astype(float), shape=S)
+            elif fn == 'vector_vortex_retarder':
+                a, b = (P.vector_vortex_retarder(c['charge'], thv, c['retardance'], c['rotate']),
+                        P.vector_vortex_retarder(c['charge'], th.astype(float), c['retardance'], c['rotate']))
+            else:
+                raise KeyError(fn)
+        a = a if isinstance(a, tuple) else (a,)
+        b = b if isinstance(b, tuple) else (b,)
+        e = max(_err(x, y) for x, y in zip(a, b))
+        return e <= tol, f'{fn} on the same data as {form}: differs from the C-contiguous float64/complex128 call by {e!r}'
     if item == 'defaults':
         th, de, al, q = c['theta'], c['retardance'], c['alpha'], c['charge']
         az = np.array(c['azimuth'], dtype=float)
@@ -199,15 +300,16 @@ def pred(item, c):
         rng = np.random.Generator(np.random.PCG64(c['seed']))
         S = tuple(c['shape'])
         what = c['what']
+        gk = c.get('grid', 'random')
         worst = 0.0
         if what == 'retarder':
-            de = rng.uniform(-6, 6, size=S)
+            de = _grid(rng, S, gk)
             out = P.linear_retarder(de, c['theta'], shape=S)
             for idx in np.ndindex(*S):
                 worst = max(worst, _err(out[idx], P.linear_retarder(float(de[idx]), c['theta'])))
         elif what == 'retarder_theta':      # spatially varying ORIENTATION (and retardance) of a linear retarder
-            th = rng.uniform(-6, 6, size=S)
-            de = rng.uniform(-6, 6, size=S)
+            th = _grid(rng, S, gk)
+            de = _grid(rng, S, c.get('grid2', 'random'))
             out = P.linear_retarder(de, th, shape=S)
             out2 = P.linear_retarder(c['retardance'], th, shape=S)
             if out.shape != S + (2, 2) or out2.shape != S + (2, 2):
@@ -216,8 +318,9 @@ def pred(item, c):
                 worst = max(worst, _err(out[idx], P.linear_retarder(float(de[idx]), float(th[idx]))),
                             _err(out2[idx], P.linear_retarder(c['retardance'], float(th[idx]))))
         elif what == 'diattenuator_batch':  # spatially varying diattenuation and orientation
-            th = rng.uniform(-6, 6, size=S)
-            al = rng.uniform(0, 1, size=S)
+            th = _grid(rng, S, gk)
+            al = np.abs(_grid(rng, S, c.get('grid2', 'random'), 0.0, 1.0)) % 1.0000001
+            al = np.where(al > 1, 1.0, al)
             out = P.linear_diattenuator(al, th, shape=S)
             out2 = P.linear_diattenuator(al, c['theta'], shape=S)
             out3 = P.linear_polarizer(th, shape=S)
@@ -228,8 +331,19 @@ def pred(item, c):
                 worst = max(worst, _err(out[idx], P.linear_diattenuator(float(al[idx]), float(th[idx]))),
                             _err(out2[idx], P.linear_diattenuator(float(al[idx]), c['theta'])),
                             _err(out3[idx], P.linear_polarizer(float(th[idx]))))
+        elif what == 'wave_plates_theta':      # half / quarter wave plates and the polariser with a spatially varying orientation
+            th = _grid(rng, S, gk)
+            for fn_ in (P.half_wave_plate, P.quarter_wave_plate, P.linear_polarizer):
+                out = fn_(th, shape=S)
+                if out.shape != S + (2, 2):
+                    return False, f'{fn_.__name__}: shape {out.shape}, expected {S + (2, 2)}'
+                for idx in np.ndindex(*S):
+                    e = _err(out[idx], fn_(float(th[idx])))
+                    if e > PTOL:
+                        return False, (f'{fn_.__name__}(theta array [{gk}]) at element {idx} (theta = {float(th[idx])!r}) differs from the '
+                                       f'scalar construction by {e!r}')
         elif what == 'rotation':
-            th = rng.uniform(-6, 6, size=S)
+            th = _grid(rng, S, gk)
             out = P.jones_rotation_matrix(th, shape=S)
             for idx in np.ndindex(*S):
                 worst = max(worst, _err(out[idx], P.jones_rotation_matrix(float(th[idx]))))
@@ -243,7 +357,7 @@ def pred(item, c):
                     return False, f'shape {o.shape}, expected {S + (2, 2)}'
                 worst = max(worst, _err(o, np.broadcast_to(r, o.shape)))
         elif what == 'vortex':
-            th = rng.uniform(-3.2, 3.2, size=S)
+            th = _grid(rng, S, gk, -3.2, 3.2)
             out = P.vector_vortex_retarder(c['charge'], th.copy(), c['retardance'], c['rotate'])
             for idx in np.ndindex(*S):
                 worst = max(worst, _err(out[idx], P.vector_vortex_retarder(c['charge'], np.array(float(th[idx])), c['retardance'], c['rotate'])))
@@ -470,15 +584,27 @@ def correspondence(ctx):
 
     # ------------------------------------------------ batches vs element-by-element
     shapes = [(), (5,), (3, 4), (2, 1, 3)]
-    whats = ['retarder', 'rotation', 'shape_broadcast', 'vortex', 'mueller', 'pauli', 'retarder_theta', 'diattenuator_batch']
-    for i in range(ctx.scale(96, 1800) * widen):
+    whats = ['retarder', 'rotation', 'shape_broadcast', 'vortex', 'mueller', 'pauli', 'retarder_theta', 'diattenuator_batch',
+             'wave_plates_theta']
+    for i in range(ctx.scale(360, 5400) * widen):
         S = shapes[i % len(shapes)]
         what = whats[(i // len(shapes)) % len(whats)]
-        if S == () and what in ('retarder', 'rotation', 'shape_broadcast', 'retarder_theta', 'diattenuator_batch'):
+        if S == () and what in ('retarder', 'rotation', 'shape_broadcast', 'retarder_theta', 'diattenuator_batch', 'wave_plates_theta'):
             S = (4,)
         c = {'what': what, 'shape': list(S), 'seed': int(rng.integers(0, 2 ** 31)), 'theta': _angle(rng),
-             'charge': float(rng.choice([1, 2, 4, -2, 1.5])), 'retardance': _ret(rng), 'rotate': _angle(rng)}
-        _check(ctx, 'batch', c, tag=f'{what}{S}')
+             'charge': float(rng.choice([1, 2, 4, -2, 1.5, 0])), 'retardance': _ret(rng), 'rotate': _angle(rng),
+             'grid': GRIDS[(i // 3) % len(GRIDS)], 'grid2': GRIDS[(i // 7) % len(GRIDS)]}
+        _check(ctx, 'batch', c, tag=f'{what}{S}/{c["grid"]}')
+
+    # ------------------------------------------------ dtypes and memory layouts of Jones / parameter arrays
+    jfns = ['jones_to_mueller', 'pauli_coefficients', 'broadcast_kron', 'jones_rotation_matrix', 'linear_retarder', 'linear_polarizer',
+            'vector_vortex_retarder']
+    jforms = ['fortran', 'strided', 'negstride', 'readonly', 'transposed_view', 'complex64', 'float32', 'int64', 'real', 'list']
+    for i in range(ctx.scale(len(jfns) * len(jforms), len(jfns) * len(jforms) * 12) * widen):
+        c = {'fn': jfns[i % len(jfns)], 'form': jforms[(i // len(jfns)) % len(jforms)], 'shape': [[4], [3, 2], [2, 1, 3]][(i // 70) % 3],
+             'seed': int(rng.integers(0, 2 ** 31)), 'charge': float(rng.choice([1, 2, -1, 1.5])), 'retardance': _ret(rng),
+             'rotate': float(rng.choice([0.0, 0.7]))}
+        _check(ctx, 'jforms', c, tag=f'{c["fn"]}/{c["form"]}')
 
     # ------------------------------------------------ polarised propagation = per-component propagation
     funcs = [f for f in P.supported_propagation_funcs if f in _PROP_ARGS]
@@ -560,9 +686,15 @@ def _small_scope():
         for de in (math.pi, 1.0):
             for ro in (0.4, math.pi / 2, 1.0):
                 yield 'vortex_rotate', {'charge': q, 'azimuth': [0.0, 0.7], 'retardance': de, 'rotate': ro}
-    for what in ('retarder_theta', 'diattenuator_batch'):
-        for S in ([2], [2, 2]):
-            yield 'batch', {'what': what, 'shape': S, 'seed': 1, 'theta': 0.3, 'charge': 2.0, 'retardance': 1.0, 'rotate': 0.2}
+    for what in ('retarder_theta', 'diattenuator_batch', 'wave_plates_theta', 'retarder', 'rotation', 'vortex'):
+        for S in ([2], [3], [2, 2], [3, 3]):
+            for gk in GRIDS:
+                yield 'batch', {'what': what, 'shape': S, 'seed': 1, 'theta': 0.3, 'charge': 2.0, 'retardance': 1.0, 'rotate': 0.2,
+                                'grid': gk, 'grid2': 'zeros_some'}
+    for fn_ in ('jones_to_mueller', 'pauli_coefficients', 'broadcast_kron', 'jones_rotation_matrix', 'linear_retarder', 'linear_polarizer',
+                'vector_vortex_retarder'):
+        for form in ('fortran', 'strided', 'negstride', 'readonly', 'transposed_view', 'complex64', 'float32', 'int64', 'real'):
+            yield 'jforms', {'fn': fn_, 'form': form, 'shape': [3, 2], 'seed': 1, 'charge': 2.0, 'retardance': 1.0, 'rotate': 0.3}
     for fn_ in ('vector_vortex_retarder', 'linear_retarder', 'jones_rotation_matrix', 'jones_to_mueller', 'pauli_coefficients'):
         for dt in (('float', 'int') if fn_ == 'vector_vortex_retarder' else ('float',)):
             yield 'pure', {'fn': fn_, 'shape': [2], 'seed': 1, 'charge': 2.0, 'retardance': 1.0, 'rotate': 0.0, 'theta': 0.3, 'dtype': dt}
